@@ -3,21 +3,13 @@ package main
 
 import (
 	"fmt"
-	"os"
 	"runtime/debug"
-	"runtime/pprof"
-	"time"
 
 	"gonum.org/v1/gonum/internal/verif/vlib"
 )
 
 func main() {
 	debug.SetGCPercent(3200) // tiny live heap: collect every ~128 MB instead of every 4 MB
-	if p := os.Getenv("C13_PROF"); p != "" {
-		f, _ := os.Create(p)
-		pprof.StartCPUProfile(f)
-		go func() { time.Sleep(20 * time.Second); pprof.StopCPUProfile(); f.Close() }()
-	}
 	vlib.Main("C13",
 		vlib.Group{Name: "dg3", Gen: genDg3},
 		vlib.Group{Name: "ug", Gen: genUg},
@@ -25,9 +17,12 @@ func main() {
 		vlib.Group{Name: "empty-tree", Gen: genEmptyTree},
 		vlib.Group{Name: "bf-negcycle", Gen: genBFNeg},
 		vlib.Group{Name: "fw-negcycle", Gen: genFWNeg},
+		vlib.Group{Name: "zero-cycle-cut", Gen: genZeroCut},
+		vlib.Group{Name: "selfloop", Gen: genSelfLoop},
 		vlib.Group{Name: "astar-heuristics", Gen: genAStarH},
 		vlib.Group{Name: "yen", Gen: genYen},
 		vlib.Group{Name: "dstar", Gen: genDStar},
+		vlib.Group{Name: "dg4neg", Gen: genDg4Neg},
 		vlib.Group{Name: "dg4", Gen: genDg4},
 	)
 }
@@ -130,11 +125,13 @@ func genUg(g *vlib.G) {
 }
 
 // blocks enumerates a graph space in blocks: one case fixes all but the last
-// `tail` pairs and runs the 'radix^tail' graphs of the block, each under
-// `per` container/ID-map combinations chosen by a fixed rotation.
+// `tail` pairs and runs the 'radix^tail' graphs of the block. per == 1: one
+// container/ID-map combination per graph chosen by a fixed rotation, in the
+// "lite" mode (one absent target ID, one A* heuristic per query, no ...Func
+// variants, no sink-self query). per == 6: every container kind once, the ID
+// map rotating with the graph index, full checks.
 func blocks(g *vlib.G, n int, directed bool, ps [][2]int, alpha []float64, tail, per int) {
 	radix := len(alpha) + 1
-	thorough := g.Thorough()
 	head := len(ps) - tail
 	kind := "und"
 	if directed {
@@ -151,18 +148,14 @@ func blocks(g *vlib.G, n int, directed bool, ps [][2]int, alpha []float64, tail,
 				r := newRef(specFromDigits(n, directed, ps, digits, alpha))
 				gi := bidx*pow(radix, tail) + tidx
 				rot := int((uint64(gi)*2654435761 + 12345) >> 7 % 18)
-				for j := 0; j < per; j++ {
-					cb := (rot + 7*j) % 18
-					c := newCtx(t, r, weightedKinds[cb%6], cb/6)
-					if per == 1 {
-						c.hmenu = []int{0, 1 + gi%3}
-						if !thorough {
-							c.lite = true
-							c.hmenu = []int{gi % 4}
-						}
-					}
+				if per == 1 {
+					c := newCtx(t, r, weightedKinds[rot%6], rot/6)
+					c.lite = true
+					c.hmenu = []int{gi % 4}
 					c.run()
 					t.Count("graph_container_idmap_combinations", 1)
+				} else {
+					runCombos(t, r, weightedKinds, gi, false)
 				}
 				t.Count("graphs", 1)
 				feat[features(r)] = true
@@ -188,7 +181,7 @@ func pow(b, e int) int {
 func genDg4(g *vlib.G) {
 	ps := pairs(4, true)
 	if g.Thorough() {
-		blocks(g, 4, true, ps, alphaB, 4, 18)
+		blocks(g, 4, true, ps, alphaB, 4, 6)
 		blocks(g, 4, true, ps, alphaBFull, 4, 1)
 		return
 	}
